@@ -187,6 +187,7 @@ def behaviours_from(run, proto, abstract, label, hub="detached"):
                 mb = conc.plan[s]["mbs"][0]
                 init.append({"mb": mb, "subjs": ["%s-%d" % (mb, k) for k in (1, 2, 3)], "size": rng.choice([80, 900, 12000])})
         out.append({"id": "%s-%s-%d" % (proto, label, i), "proto": proto, "store": ["mem", "file"][(i + run.seed) % 2], "hub": hub, "names": BOXES,
+                    "retention_off": (i + run.seed) % 5 == 0,
                     "init": init, "steps": steps, "_abs": seq,
                     # a schedule that can kill the process runs in a child process of the driver; its death is an event of the trace
                     "isolate": hub == "wired" or any(a["c"] == "accept" for a in seq)})
